@@ -819,7 +819,12 @@ fn parse_json_filter(input: &[u8], output: &mut [u8]) -> Result<(usize, usize), 
 
             eat_colon_with_whitespace(input, &mut inpos)?;
             let limit = read_u64(input, &mut inpos)?;
-            let limit: u32 = limit as u32;
+            // saturate: a limit this large is no limit (u32::MAX means unlimited)
+            let limit: u32 = if limit > u32::MAX as u64 {
+                u32::MAX
+            } else {
+                limit as u32
+            };
             put(output, LIMIT_OFFSET, limit.to_ne_bytes().as_slice())?;
 
             found |= HAVE_LIMIT;
